@@ -1,6 +1,7 @@
 package main
 
 import (
+	"sort"
 	"bytes"
 	"context"
 	"fmt"
@@ -161,6 +162,10 @@ func (e *Engine) scriptHeader(st *State, pre *State) string {
 		}
 	}
 	emit(st.decls)
+	var ins []string
+	inputDecls.Range(func(k, _ interface{}) bool { ins = append(ins, k.(string)); return true })
+	sort.Strings(ins)
+	emit(ins)
 	if pre != nil {
 		emit(pre.decls)
 	}
@@ -196,8 +201,10 @@ func (s *Solver) checkAll(solver, header string, goals []Term, getValues []strin
 			l := strings.TrimSpace(lines[li])
 			li++
 			if l == "unsat" || l == "sat" || l == "unknown" {
-				res[i].Status = l
-				break
+				if res[i].Status != "error" {
+					res[i].Status = l
+				}
+				break // a verdict that follows a solver error for this goal is meaningless: it stays "error"
 			}
 			if strings.HasPrefix(l, "(error") {
 				res[i].Status = "error"
